@@ -40,7 +40,7 @@ std::vector<V> pattern(uint64_t n, int pat, uint64_t seed, V lo) {
 
 struct Scenario {
   int fam; std::vector<int> ks;                 // k per sketch slot
-  struct Step { int kind; int a, b; std::vector<V> items; };  // 0: update slot a with items; 1: merge slot b into slot a (lvalue); 2: same, rvalue copy
+  struct Step { int kind; int a, b; std::vector<V> items; };  // 0: update slot a with items; 1: merge slot b into slot a (lvalue); 2: same, rvalue copy; 3: slot a := deserialize(serialize(slot a)) (b: 0 bytes, 1 stream)
   std::vector<Step> steps;
   int nslots = 0;
 };
@@ -68,6 +68,11 @@ void execute(const Scenario& sc, std::vector<std::vector<std::pair<V, uint64_t>>
   for (int i = 0; i < sc.nslots; ++i) sk.push_back(make<SK>(sc.fam, sc.ks[i]));
   for (const auto& st : sc.steps) {
     if (st.kind == 0) { for (V v : st.items) sk[st.a].update(v); continue; }
+    if (st.kind == 3) {  // the sketch goes through its serialized image in mid-history (whatever the image does not carry - coins - is drawn again)
+      if (st.b == 0) { auto bytes = sk[st.a].serialize(); sk[st.a] = SK::deserialize(bytes.data(), bytes.size()); }
+      else { std::stringstream ss(std::ios::in | std::ios::out | std::ios::binary); sk[st.a].serialize(ss); sk[st.a] = SK::deserialize(ss); }
+      continue;
+    }
     uint64_t before = 0; int ka = 0, kb = 0;
     if (stride_log) { before = rand_draws_since(probe_seed, 64); ka = sk[st.a].get_k(); kb = sk[st.b].get_k(); }
     if (st.kind == 1) { sk[st.a].merge(sk[st.b]); }
@@ -147,6 +152,7 @@ void run_family(const Scenario& sc0, const Case& cs) {
   std::vector<std::vector<V>> truth(sc.nslots);
   for (const auto& st : sc.steps) {
     if (st.kind == 0) truth[st.a].insert(truth[st.a].end(), st.items.begin(), st.items.end());
+    else if (st.kind == 3) continue;
     else { std::vector<V> add = truth[st.b]; truth[st.a].insert(truth[st.a].end(), add.begin(), add.end()); }
   }
   V qlo = 0, qhi = 0; bool have = false;
@@ -243,7 +249,8 @@ void run_family(const Scenario& sc0, const Case& cs) {
   vf::count("outcomes", outcomes);
   vf::count("req-exact-zone-queries-checked", exact_claims);
   vf::count("req-exact-zone-queries-without-zero-width-interval", zone_not_claimed);
-  bool merged = false; for (auto& st : sc.steps) merged |= st.kind != 0;
+  bool merged = false, rt = false; for (auto& st : sc.steps) { merged |= st.kind == 1 || st.kind == 2; rt |= st.kind == 3; }
+  if (rt) vf::label("round-trip-in-mid-history");
   vf::label(std::string("family:") + fam_name(sc.fam));
   if (merged) vf::label("merge");
   if (f >= 3) vf::label("f>=3");
@@ -280,6 +287,9 @@ void prop(const Case& cs) {
       int a = static_cast<int>(op.uarg(0) % sc.nslots), b = static_cast<int>(op.uarg(1) % sc.nslots);
       if (a == b) continue;
       sc.steps.push_back(Scenario::Step{(op.arg(2) & 1) ? 2 : 1, a, b, {}});
+    } else if (op.name == "rt") {
+      if (!sc.nslots) continue;
+      sc.steps.push_back(Scenario::Step{3, static_cast<int>(op.uarg(0) % sc.nslots), static_cast<int>(op.uarg(1) & 1), {}});
     }
   }
   if (!sc.nslots) return;
@@ -293,7 +303,7 @@ void prop(const Case& cs) {
 rc::Gen<Case> gen() {
   using namespace vf;
   auto leaf = op4("leaf", range(0, 9), rc::gen::weightedOneOf<int64_t>({{1, range(0, 3)}, {3, range(4, 40)}, {3, range(40, 119)}}), range(0, 4), range(0, 1 << 20));
-  auto hist = choose({{4, op3("merge", range(0, 3), range(0, 3), range(0, 1))}, {2, op4("upd", range(0, 3), range(1, 59), range(0, 4), range(0, 1 << 20))}});
+  auto hist = choose({{4, op3("merge", range(0, 3), range(0, 3), range(0, 1))}, {3, op4("upd", range(0, 3), range(1, 59), range(0, 4), range(0, 1 << 20))}, {2, op2("rt", range(0, 3), range(0, 1))}});
   auto ops = rc::gen::map(rc::gen::tuple(rc::gen::mapcat(rc::gen::weightedOneOf<int64_t>({{1, range(1, 1)}, {5, range(2, 4)}}), [leaf](int64_t n) { return rc::gen::container<std::vector<Op>>(static_cast<size_t>(n), leaf); }), oplist(hist, 2, 0.07)),
                           [](std::tuple<std::vector<Op>, std::vector<Op>> t) { auto v = std::get<0>(t); auto& h = std::get<1>(t); v.insert(v.end(), h.begin(), h.end()); return v; });
   return make_case({{"fam", range(0, NFAM - 1)}}, ops);
